@@ -17,6 +17,9 @@ OVK = {"internal/ssh/client/vcommon_test.go": ("common/vcommon_test.go", "client
        "internal/ssh/client/e2e_keygen_test.go": "e2e/keygen_test.go"}
 
 
+_BINS = {}
+
+
 def free_port():
     s = socket.socket()
     s.bind(("127.0.0.1", 0))
@@ -27,12 +30,15 @@ def free_port():
 
 class Cluster:
     def __init__(self, wd, nservers, server_cfg=None):
+        os.makedirs(wd, exist_ok=True)
         self.wd = os.path.join(wd, "e2e")
         os.makedirs(self.wd, exist_ok=True)
         self.user = getpass.getuser()
         self.bins = {}
         for b in ("dserver", "dcat", "dgrep"):
-            self.bins[b] = vlib.go_build(wd, "./cmd/" + b, os.path.join(self.wd, b), tags="")
+            if b not in _BINS or not os.path.exists(_BINS[b]):      # built once per check run (from /repo's working tree)
+                _BINS[b] = vlib.go_build(wd, "./cmd/" + b, os.path.join(self.wd, b), tags="")
+            self.bins[b] = _BINS[b]
         self.key = os.path.join(self.wd, "id_rsa")
         if not os.path.exists(self.key):
             rc, out = vlib.go_test(wd, "./internal/ssh/client", OVK, "TestE2EKeygen", env={"VERIF_KEY": self.key}, timeout=300)
@@ -279,4 +285,70 @@ def stage_slow(wd, V, rng, tier):
                 V.violation("SSH, consumer stalling %.1f s: %s" % (stall, bad[0]), {"bad": bad[:6], "stderr": (err or b"")[-300:].decode(errors="replace")})
     finally:
         cl.stop()
+    return runs
+
+
+def max_active_sources(out):
+    """REMOTE records only: the largest number of sources (host|file id) that are 'open' at one point of the output, a source
+    being open from its first record to its last one.  Reads pass the limiter before they queue their lines into the FIFO
+    of the session, so with a limit of k at most k sources can be open at any point of one session's output."""
+    seq = []
+    for rec in out.split(b"\n"):
+        f = rec.split(b"|", 5)
+        if len(f) == 6 and f[0] == b"REMOTE":
+            seq.append((f[1], f[4]))
+    last = {s: i for i, s in enumerate(seq)}
+    active, best = set(), 0
+    for i, s in enumerate(seq):
+        active.add(s)
+        best = max(best, len(active))
+        if last[s] == i:
+            active.discard(s)
+    return best, len(last)
+
+
+def stage_limits(wd, V, rng, tier):
+    """C13 wiring: the configured limits reach the limiters of a real server and of the serverless connector.  cat of more
+    files than MaxConcurrentCats: the output of the session never has more than that many files open at once."""
+    import subprocess
+    runs = 0
+    base = os.path.join(wd, "e2e-limits")
+    d = os.path.join(base, "data")
+    os.makedirs(d, exist_ok=True)
+    os.chmod(wd, 0o755)
+    os.chmod(base, 0o755)
+    os.chmod(d, 0o755)
+    nfiles = 5
+    for i in range(nfiles):
+        with open(os.path.join(d, "f%d.log" % (i + 1)), "w") as fh:
+            for k in range(4000):
+                fh.write("f%d line %d %s\n" % (i + 1, k, "x" * (k % 60)))
+        os.chmod(os.path.join(d, "f%d.log" % (i + 1)), 0o644)
+    for k in ([1, 2] if tier == "quick" else [1, 2, 3, 4]):
+        # serverless connector
+        if "dcat" not in _BINS or not os.path.exists(_BINS["dcat"]):
+            _BINS["dcat"] = vlib.go_build(wd, "./cmd/dcat", os.path.join(base, "dcat"), tags="")
+        exe = _BINS["dcat"]
+        cfgp = os.path.join(base, "cats%d.json" % k)
+        json.dump({"Server": {"MaxConcurrentCats": k, "MaxConcurrentTails": 50}}, open(cfgp, "w"))
+        p = subprocess.run([exe, "--cfg", cfgp, "--noColor", "--logDir", os.path.join(base, "log"), "--files", os.path.join(d, "*.log")],
+                           stdin=subprocess.DEVNULL, stdout=subprocess.PIPE, stderr=subprocess.PIPE, timeout=120, env=vlib.goenv({"HOME": base}))
+        runs += 1
+        best, nsrc = max_active_sources(p.stdout)
+        if nsrc != nfiles:
+            V.violation("serverless dcat of %d files delivered %d sources" % (nfiles, nsrc), {"limit": k, "rc": p.returncode, "stderr": p.stderr[-300:].decode(errors="replace")})
+        elif best > k:
+            V.violation("serverless dcat with MaxConcurrentCats=%d: %d files were being read at the same time" % (k, best), {"limit": k, "files": nfiles})
+        # real server
+        cl = Cluster(os.path.join(base, "c%d" % k), 1, server_cfg={"MaxConcurrentCats": k, "MaxConcurrentTails": 50})
+        try:
+            rc, out, err = cl.run("dcat", os.path.join(d, "*.log"), timeout=120)
+            runs += 1
+            best, nsrc = max_active_sources(out or b"")
+            if rc != 0 or nsrc != nfiles:
+                V.violation("dcat over SSH of %d files delivered %d sources (exit %s)" % (nfiles, nsrc, rc), {"limit": k, "stderr": (err or b"")[-300:].decode(errors="replace")})
+            elif best > k:
+                V.violation("dserver with MaxConcurrentCats=%d: %d files were being read at the same time" % (k, best), {"limit": k, "files": nfiles})
+        finally:
+            cl.stop()
     return runs
